@@ -26,11 +26,11 @@ def main(chk):
     chk.cov['exhaustive'] = True
     chk.notes['model'] = {'chains_enumerated': len(units)}
     b1.replay(chk, units, keyfn, sample=None if quick else 6000, seed=chk.seed, label='g')
-    ru = termgen.random_chain_units(rnd, 400 if quick else 5000)
+    ru = termgen.random_chain_units(rnd, 400 if quick else 5000) + termgen.random_unpivot_units(rnd, 60 if quick else 800)
     lu, lo, _ = b1.validate(chk, ru, keyfn)
     b1.binding_demo(chk, lu, lo, c01.corrupt)
     chk.cov['rule'] = ('B1: every well-formed chain of 1-%d clauses (filter with true/false/null outcomes, calc add / overwrite / role change, '
                        'keep, drop, rename of measures and identifiers, sub on each identifier) over a 4-row and an empty dataset, each chain '
                        'ONE statement, enumerated by TLC (GenClauses) and replayed; B2: random chains of length 1-4 with random well-typed '
                        'expressions over random datasets validated by VTLOperators_Trace. distinct = distinct (term, result)') % (2 if quick else 3)
-    chk.assumptions += ['clauses on join results are exercised by C04', 'pivot/unpivot/apply are not modelled yet']
+    chk.assumptions += ['clauses on join results are exercised by C04', 'unpivot is modelled (Unpivot); pivot is not implemented by the engine (NotImplementedError), apply is not modelled']
